@@ -13,7 +13,7 @@
 			    var s interface{}
 				s, err = c.Get({{export $service.Name}})
 				if err != nil {
-                    return nil, {{ groupErrorAlias }}.Prefix(
+                    return result, {{ groupErrorAlias }}.Prefix(
                         {{ importAlias "fmt" }}.Sprintf("%s.%s(): ", {{export $containerType}}, {{export $service.Getter}}),
                         err,
                     )
@@ -33,7 +33,7 @@
                 var s interface{}
                 s, err = c.GetInContext(ctx, {{export $service.Name}})
                 if err != nil {
-                    return nil, {{ groupErrorAlias }}.Prefix(
+                    return result, {{ groupErrorAlias }}.Prefix(
                         {{ importAlias "fmt" }}.Sprintf("%s.%sInContext(): ", {{export $containerType}}, {{export $service.Getter}}),
                         err,
                     )
